@@ -1108,11 +1108,46 @@ class Evaluator:
         return True
 
     def st_With(self, st, fr):
+        managers = []
         for item in st.items:
             v = self.expr(item.context_expr, fr)
+            if T.tag(v) == 'raise':
+                return v
+            bound = v
+            if T.tag(v) == 'obj':
+                # a context manager class of the package: `as` binds what __enter__ returns, and __exit__ runs on every exit -
+                # a truthy result of __exit__ swallows the exception that is leaving the block
+                ci = self.p.classes.get(v[1])
+                m_enter = ci.find_method('__enter__') if ci is not None else None
+                m_exit = ci.find_method('__exit__') if ci is not None else None
+                if m_enter is not None:
+                    bound, f2 = self._invoke(m_enter, [v], {}, fr.facts, fr.depth + 1)
+                    fr.facts = f2
+                    if T.tag(bound) == 'raise':
+                        return bound
+                if m_exit is not None:
+                    managers.append((v, m_exit))
             if item.optional_vars is not None:
-                self.assign(item.optional_vars, v, fr)
-        return self.block(st.body, fr)
+                self.assign(item.optional_vars, bound, fr)
+        r = self.block(st.body, fr)
+        for v, m_exit in reversed(managers):
+            has_raise = r is not FALL and any(T.tag(x) == 'raise' and not str(x[1]).startswith('<') for x in _leaves_of(r))
+            if has_raise:
+                exc = T.ext('builtins.Exception')
+                ret, _f = self._invoke(m_exit, [v, exc, T.sym('exc_val', type='obj'), T.sym('exc_tb', type='obj')], {}, fr.facts, fr.depth + 1)
+                sup = self.decide(self.truth(_strip_raise(ret), fr), fr) if T.tag(ret) != 'raise' else T.FALSE
+                if sup != T.FALSE:
+                    def swallow(x, sup=sup):
+                        if T.tag(x) == 'raise' and not str(x[1]).startswith('<'):
+                            return FALL if sup == T.TRUE else T.phi(sup, FALL, x)
+                        return x
+                    r = _map_leaves(r, swallow)
+            else:
+                ret, f2 = self._invoke(m_exit, [v, T.NONE, T.NONE, T.NONE], {}, fr.facts, fr.depth + 1)
+                fr.facts = f2
+        if r is not FALL and T.tag(r) == 'phi' and all(x is FALL or x == FALL for x in _leaves_of(r)):
+            return FALL
+        return r
 
     def st_For(self, st, fr):
         it = self._consume(self.expr(st.iter, fr))
